@@ -12,15 +12,34 @@ HERE = os.path.dirname(os.path.abspath(__file__))
 VERIF = os.path.dirname(HERE)
 
 
-def main():
-    args = sys.argv[1:]
-    prop = args[args.index("--prop") + 1] if "--prop" in args else None
-    only = args[args.index("--id") + 1] if "--id" in args else None
+def seeded_as_mutants(prop):
+    """kept sub-agent changes of a property, as (id, patch path) pairs"""
+    import glob
+    out = []
+    for d in sorted(glob.glob(os.path.join(VERIF, "seeded", "%s-m*" % prop))):
+        if os.path.exists(os.path.join(d, "patch.diff")):
+            out.append((os.path.basename(d), os.path.join(d, "patch.diff")))
+    return out
+
+
+def battery(prop, only=None, include_seeded=True, keep=False):
+    """-> [(id, CAUGHT|MISSED|STALE, detail)] : every hand-written mutant and every seeded change of `prop`, applied one
+    at a time to a scratch copy of /repo's sources (outside /repo and /verif), must make `./check prop` fire"""
     muts = json.load(open(os.path.join(HERE, "mutants.json")))
     muts = [m for m in muts if (not prop or m["property"] == prop) and (not only or m["id"] == only)]
     scratch = tempfile.mkdtemp(prefix="verif-selftest-")
     results = []
     try:
+        results = _run(muts, scratch, prop if include_seeded and prop and not only else None)
+    finally:
+        if not keep:
+            shutil.rmtree(scratch, ignore_errors=True)
+    return results
+
+
+def _run(muts, scratch, seeded_prop):
+    results = []
+    if True:
         root = os.path.join(scratch, "repo")
         os.makedirs(root)
         subprocess.run(["rsync", "-a", "--exclude", "target", "--exclude", ".git", "--exclude", "test_data", "/repo/crates", "/repo/Cargo.toml", "/repo/Cargo.lock", "/repo/examples", root + "/"], check=True)
@@ -45,13 +64,34 @@ def main():
                 results.append((m["id"], "CAUGHT", hit[0][:160]))
             else:
                 results.append((m["id"], "MISSED", "rc=%d; fired=%r" % (r.returncode, [f[:100] for f in fired[:3]])))
-    finally:
-        if "--keep" not in args:
-            shutil.rmtree(scratch, ignore_errors=True)
+        if seeded_prop:
+            for sid, patch in seeded_as_mutants(seeded_prop):
+                r0 = subprocess.run(["git", "apply", "--directory=" + os.path.relpath(root, scratch), patch], cwd=scratch, capture_output=True, text=True) if False else subprocess.run(["patch", "-p1", "-s", "-i", patch], cwd=root, capture_output=True, text=True)
+                if r0.returncode != 0:
+                    results.append((sid, "STALE", "patch no longer applies: " + (r0.stdout + r0.stderr)[:120]))
+                    subprocess.run(["rsync", "-a", "--delete", "--exclude", "target", "--exclude", ".git", "--exclude", "test_data", "/repo/crates", root + "/"], check=False)
+                    continue
+                try:
+                    r = subprocess.run([os.path.join(VERIF, "check"), seeded_prop], capture_output=True, text=True, env=env, cwd=VERIF)
+                finally:
+                    subprocess.run(["patch", "-p1", "-R", "-s", "-i", patch], cwd=root, capture_output=True, text=True)
+                fired = [l for l in r.stdout.splitlines() if l.startswith("FAIL ")]
+                if r.returncode == 1 and fired:
+                    results.append((sid, "CAUGHT", fired[0][:160]))
+                else:
+                    results.append((sid, "MISSED", "rc=%d (seeded change; see seeded/%s/meta.json)" % (r.returncode, sid)))
+    return results
+
+
+def main():
+    args = sys.argv[1:]
+    prop = args[args.index("--prop") + 1] if "--prop" in args else None
+    only = args[args.index("--id") + 1] if "--id" in args else None
+    results = battery(prop, only, include_seeded="--no-seeded" not in args, keep="--keep" in args)
     bad = 0
-    for i, s, d in results:
-        print("%-8s %-28s %s" % (s, i, d))
-        if s != "CAUGHT":
+    for i, s_, d in results:
+        print("%-8s %-28s %s" % (s_, i, d))
+        if s_ != "CAUGHT":
             bad += 1
     print("selftest: %d mutants, %d caught, %d not" % (len(results), len(results) - bad, bad))
     return 1 if bad else 0
